@@ -46,7 +46,7 @@ theorem split_super {dt sup : String} {c : Chunk} (hsupid : isSuperId sup = true
     c.split c.stop true = .ok (c, remOf c sup c.target) := by
   obtain ⟨rid, hs⟩ := hc.hsub
   have hpos := hc.hpos
-  rw [Chunk.split_eq]
+  rw [Chunk.split_eq (Chunk.not_bad_of_runId hc.hrun)]
   have hv : splitData c c.stop true = .ok (c.rows, [], c.stop) := by
     have : max c.stop c.start = c.stop := by omega
     simp [splitData, this, pure, Except.pure]
@@ -344,5 +344,82 @@ theorem applyTimeRange_sublist (tr : Int × Int) : ∀ (cs out : List Chunk), ap
       subst h
       rw [rowsOf_cons, rowsOf_cons]
       exact List.Sublist.append (applyTimeRange1_sublist h1) (applyTimeRange_sublist tr cs rest h2)
+
+/-! ### the whole `superGet` for adjacent subruns and any number of superrun-capable levels -/
+
+/-- hypotheses on the world: source plugin `l0` (saved without rechunking), superrun-capable plugins `l1 :: ls`
+above it, every listed subrun with ≥ 1 accepted source chunk, the concat loader's stream adjacent in time -/
+structure WorldAdj (w : World) (l0 l1 : Level) (ls : List Level) (spec : List String) : Prop where
+  hlevels : w.levels = l0 :: l1 :: ls
+  hre : l0.rechunk = false
+  hsrc : l0.allow = false
+  hallow : ∀ lv ∈ l1 :: ls, lv.allow = true
+  hsup : isSuperId w.superName = true
+  hruns : ∀ rid ∈ spec, ∃ raw, w.src.lookup rid = some raw ∧ raw ≠ [] ∧ isSuperId rid = false ∧ ∀ c ∈ raw, RawOK c
+  hspec : spec ≠ []
+  hstream : AdjStream l0.dataType w.superName none (loaderStream w l0 spec)
+
+theorem contStep_retag (lv : Level) (st : ContState) (c : Chunk) : contStep st (retag lv c) = contStep st c := rfl
+
+theorem continuity_retag (lv : Level) (cs : List Chunk) :
+    Superrun.continuityCheck (cs.map (retag lv)) = Superrun.continuityCheck cs := by
+  unfold Superrun.continuityCheck
+  have : ∀ (cs : List Chunk) (st : ContState), (cs.map (retag lv)).foldlM contStep st = cs.foldlM contStep st := by
+    intro cs
+    induction cs with
+    | nil => intro st; rfl
+    | cons c cs ih =>
+      intro st
+      simp only [List.map_cons, List.foldlM_cons, contStep_retag]
+      cases contStep st c with
+      | error e => rfl
+      | ok st' => exact ih st'
+  rw [this]
+
+theorem descend_allow {κ : Type} [DecidableEq κ] {w : World} {spec : List String} {key : Key κ} {l0 : Level}
+    {base : List Chunk} (hsrc : l0.allow = false) (hcl : concatLoader w spec [] 0 = .ok base) :
+    ∀ (rev : List Level), (∀ lv ∈ rev, lv.allow = true) →
+      descend w spec [] key ([] : Store κ) false (rev ++ [l0]) = .ok (base, rev.reverse)
+  | [], _ => by simp [descend, hsrc, hcl, bind, Except.bind, pure, Except.pure]
+  | lv :: rev, h => by
+    have ih := descend_allow (key := key) hsrc hcl rev (fun x hx => h x (by simp [hx]))
+    have hal : lv.allow = true := h lv (by simp)
+    simp [descend, hal, ih, bind, Except.bind, pure, Except.pure]
+
+/-- **Totality for adjacent subruns, any depth**: `get_iter` of the superrun at the topmost of any number of
+superrun-capable levels (nothing stored, nothing written) does not raise, passes `continuity_check` and yields the
+first level's chunks re-tagged. -/
+theorem superGet_adjacent {κ : Type} [DecidableEq κ] (H : List (String × Option (Int × Int)) → Bool → κ) {w : World}
+    {l0 l1 top : Level} {ls : List Level} {spec : List String} (h : WorldAdj w l0 l1 ls spec)
+    (htop : (l1 :: ls).getLast? = some top) :
+    superGet H w spec [] [] (ls.length + 1) false false
+      = .ok ((expected l1 w.superName none (loaderStream w l0 spec)).map (retag top), []) := by
+  have hcl := concatLoader_source' (spec := spec) h.hlevels h.hre h.hruns
+  have hne : loaderStream w l0 spec ≠ [] := by
+    obtain ⟨rid, rest, hsp⟩ := List.exists_cons_of_ne_nil h.hspec
+    obtain ⟨raw, hs, hne, _, _⟩ := h.hruns rid (by rw [hsp]; simp)
+    obtain ⟨c, tl, hraw⟩ := List.exists_cons_of_ne_nil hne
+    simp [loaderStream, hsp, rawOf, hs, hraw]
+  unfold superGet
+  have h1 : w.levels[ls.length + 1]? = some top := by
+    rw [h.hlevels]
+    rw [List.getLast?_eq_getElem?] at htop
+    simpa using htop
+  have hal : (!top.allow) = false := by
+    have : top ∈ l1 :: ls := List.mem_of_getLast? htop
+    rw [h.hallow top this]; rfl
+  have ht : (w.levels.take (ls.length + 1 + 1)).reverse = (l1 :: ls).reverse ++ [l0] := by
+    rw [h.hlevels]
+    have : List.take (ls.length + 1 + 1) (l0 :: l1 :: ls) = l0 :: l1 :: ls := List.take_of_length_le (by simp)
+    rw [this]; simp
+  simp only [h1, hal, Bool.false_eq_true, if_false, ht]
+  rw [descend_allow h.hsrc hcl (l1 :: ls).reverse (by intro lv hlv; exact h.hallow lv (List.mem_reverse.mp hlv))]
+  simp only [bind, Except.bind, List.reverse_reverse]
+  rw [runLevels_adjacent ls (h.hallow l1 (by simp)) h.hsup hne h.hstream]
+  have hlast : (List.map (fun lv => (lv, (expected l1 w.superName none (loaderStream w l0 spec)).map (retag lv))) (l1 :: ls)).getLast?
+      = some (top, (expected l1 w.superName none (loaderStream w l0 spec)).map (retag top)) := by
+    rw [List.getLast?_map, htop]; rfl
+  simp only [topOutput, hlast, continuity_retag, continuity_expected l1 w.superName h.hsup, storeAfter,
+    Bool.false_eq_true, if_false, pure, Except.pure]
 
 end Strax.Superrun
